@@ -54,7 +54,7 @@ CATALOGUE = [
     # collection / adaptivity faults
     "collection_other_binning", "collection_add_other_binning", "set_adaptive_on_static",
 ]
-FAULT_KINDS = ["invalid:" + c for c in CATALOGUE] + ["fault_after_growth"]
+FAULT_KINDS = ["invalid:" + c for c in CATALOGUE] + ["fault_after_growth", "derived_object_filled"]
 RULE = ("one run = one live node of a seeded family (1-D fixed int/float, 1-D adaptive, 1-D gapped, 2-D fixed, 2-D "
         "adaptive, 2-D with a gapped axis, 3-D fixed) and a twin, a seeded history (<= 14) of valid operations (fill, "
         "fill_n, += , *=, /=, merge_bins(inplace), set_dtype, normalize(inplace)) with 1-5 invalid calls from a "
@@ -77,10 +77,10 @@ ASSUMPTIONS = [
 ]
 
 FAMILIES = ["1d_int", "1d_float", "1d_adaptive", "1d_gapped", "2d_fixed", "2d_adaptive", "2d_gapped_axis", "3d_fixed",
-            "1d_int32", "1d_gapped_int", "1d_float_no_missed", "2d_no_missed"]
+            "1d_int32", "1d_gapped_int", "1d_float_no_missed", "2d_no_missed", "2d_fortran", "2d_thin"]
 VALID = ["fill", "fill", "fill_w", "fill_n", "fill_n", "fill_n_w", "iadd_copy", "imul", "idiv", "merge", "set_dtype",
          "normalize", "fill_far", "isub_half", "iadd_float_copy", "isub_small_int", "fill_heavy", "iadd_batch_built",
-         "iadd_batch_built"]
+         "iadd_batch_built", "fill_a_derived", "fill_a_derived"]
 
 
 def generate(rng, seed, part):
@@ -134,6 +134,15 @@ def make_node(cfg):
     elif fam == "1d_float_no_missed":
         h = Histogram1D(StaticBinning(np.array([[0.0, 1.0], [1.0, 2.0], [2.0, 3.5], [3.5, 4.0]])), dtype=np.float64,
                         keep_missed=False)
+    elif fam == "2d_fortran":
+        # contents handed to the constructor in Fortran order (e.g. the transpose of numpy.histogram2d's result)
+        contents = np.asfortranarray(np.arange(6, dtype=np.int64).reshape(3, 2) % 4)
+        h = Histogram2D([StaticBinning(np.array([[0.0, 1.0], [1.0, 2.5], [2.5, 4.0]])),
+                         StaticBinning(np.array([[0.0, 2.0], [2.0, 4.0]]))], frequencies=contents,
+                        errors2=np.asfortranarray(contents + 1))
+    elif fam == "2d_thin":
+        h = Histogram2D([StaticBinning(np.array([[0.0, 4.0]])),
+                         StaticBinning(np.array([[0.0, 1.0], [1.0, 2.5], [2.5, 4.0]]))])
     elif fam == "2d_no_missed":
         h = Histogram2D([StaticBinning(np.array([[0.0, 1.0], [1.0, 2.5], [2.5, 4.0]])),
                          StaticBinning(np.array([[0.0, 2.0], [2.0, 4.0]]))], keep_missed=False)
@@ -200,6 +209,29 @@ def apply_valid(h, kind, arg):
         other *= 0.25
         h += other
         return None
+    if kind == "fill_a_derived":
+        # no operation on the node at all: something derived from it is filled (the caller checks the node)
+        how = ["copy", "T", "projection", "slice", "mul"][arg % 5]
+        if how == "T":
+            if type(h).__name__ != "Histogram2D":
+                return NotImplemented
+            d = h.T
+        elif how == "projection":
+            if nd < 2:
+                return NotImplemented
+            d = h.projection(arg % nd)
+        elif how == "slice":
+            if h.shape[0] < 2:
+                return NotImplemented
+            d = h[1:]
+        elif how == "mul":
+            d = h * 1
+        else:
+            d = h.copy()
+        lo = [float(np.asarray(b.bins)[0].mean()) for b in d.binnings]
+        d.fill(lo[0] if d.ndim == 1 else lo)
+        d.fill_n([lo[0]] if d.ndim == 1 else [lo])
+        return "node-untouched"
     if kind == "iadd_batch_built":
         # the other operand was filled in one batch over the same bins (its missed bookkeeping may be of another kind
         # than the node's: NaN "unknown" for gapped bins, floats next to integers)
@@ -488,27 +520,30 @@ def lo_inside(h):
 # ----------------------------------------------------------------------------
 # oracle
 # ----------------------------------------------------------------------------
-def unchanged_per_interval(ctx, before, before_missed, h, label, fam):
+def unchanged_per_interval(ctx, before, before_missed, h, label, fam, untouched=False):
     """Contents / errors2 per bin interval and missed are numerically what they were."""
+    rule = "C18/failed-op-changes-nothing" if not untouched else "C18/only-own-operations-change-a-histogram"
+    tag = "changed-after-raise" if not untouched else "changed-without-operation"
+    verb = "raised" if not untouched else "did not operate on this histogram"
     cur = hist_arrays(h)
     exp_f, exp_e, lost = carry_over(before, cur[0])
     if lost:
-        ctx.violation("C18/failed-op-changes-nothing", f"C18/changed-after-raise/{label}/interval-lost",
-                      f"{label} raised, but interval {lost[0]} that held content no longer exists ({fam})")
+        ctx.violation(rule, f"C18/{tag}/{label}/interval-lost",
+                      f"{label} {verb}, but interval {lost[0]} that held content no longer exists ({fam})")
     f = np.asarray(cur[1], dtype=np.float64)
     e = np.asarray(cur[2], dtype=np.float64)
     from sim.oracle import chaos
 
     if chaos() or not np.array_equal(exp_f, f, equal_nan=True):
-        ctx.violation("C18/failed-op-changes-nothing", f"C18/changed-after-raise/{label}/contents",
-                      f"{label} raised, but contents changed: expected vs got {first_diff(exp_f, f)} ({fam})")
+        ctx.violation(rule, f"C18/{tag}/{label}/contents",
+                      f"{label} {verb}, but contents changed: expected vs got {first_diff(exp_f, f)} ({fam})")
     if chaos() or not np.array_equal(exp_e, e, equal_nan=True):
-        ctx.violation("C18/failed-op-changes-nothing", f"C18/changed-after-raise/{label}/errors2",
-                      f"{label} raised, but errors2 changed: expected vs got {first_diff(exp_e, e)} ({fam})")
+        ctx.violation(rule, f"C18/{tag}/{label}/errors2",
+                      f"{label} {verb}, but errors2 changed: expected vs got {first_diff(exp_e, e)} ({fam})")
     m = missed_tuple(h)
     if chaos() or not np.array_equal(np.asarray(before_missed), np.asarray(m), equal_nan=True):
-        ctx.violation("C18/failed-op-changes-nothing", f"C18/changed-after-raise/{label}/missed",
-                      f"{label} raised, but missed changed from {before_missed} to {m} ({fam})")
+        ctx.violation(rule, f"C18/{tag}/{label}/missed",
+                      f"{label} {verb}, but missed changed from {before_missed} to {m} ({fam})")
 
 
 def invariants(ctx, h, what, fam):
@@ -556,6 +591,14 @@ def execute(plan, ctx):
             if not ok:
                 ctx.fault("valid_op_raised")
                 unchanged_per_interval(ctx, before, before_missed, node, f"valid:{op['kind']}", fam)
+            elif res == "node-untouched":
+                # Whether a derived object is independent of the node is C12's statement, not this one: here the
+                # step only diversifies the histories (a node that shares memory with something else must still
+                # obey "a raising call changes nothing"); a change is counted, not reported.
+                ctx.fault("derived_object_filled")
+                cur_ = hist_arrays(node)
+                if not (np.array_equal(np.asarray(cur_[1], dtype=float), np.asarray(before[1], dtype=float), equal_nan=True)):
+                    ctx.probe("node_changed_by_fill_of_derived_object(C12)")
             if ok != ok_t:
                 ctx.violation("C18/usable-after-fault", f"C18/diverges-from-twin/{op['kind']}",
                               f"valid operation {op['kind']} {'succeeded' if ok else 'raised ' + repr(res)} on the node that saw "
